@@ -195,8 +195,10 @@ def toLower (c : Char) : Char := if isUpper c then Char.ofNat (c.toNat + 32) els
 def isSpace (c : Char) : Bool :=
   (decide (9 ≤ c.toNat) && decide (c.toNat ≤ 13)) || (decide (28 ≤ c.toNat) && decide (c.toNat ≤ 32))
 
+def asciiC (c : Char) : Bool := decide (0 < c.toNat) && decide (c.toNat < 128)
+
 /-- the model covers ASCII text without NUL -/
-def asciiOk (s : List Char) : Bool := s.all fun c => decide (0 < c.toNat) && decide (c.toNat < 128)
+def asciiOk (s : List Char) : Bool := s.all asciiC
 
 def numOf (l : List Char) : Nat := l.foldl (fun a c => 10 * a + dval c) 0
 
@@ -374,19 +376,22 @@ def digits12 : List Char → Option (List Char × List Char)
 
 /-- `\d{1,2}:` with backtracking -/
 def hourColon : List Char → Option (List Char × List Char)
-  | a :: b :: ':' :: r =>
-    if isDigit a && isDigit b then some ([a, b, ':'], r)
-    else if isDigit a && b == ':' then some ([a, ':'], ':' :: r)
+  | a :: b :: c :: r =>
+    if isDigit a && isDigit b && c == ':' then some ([a, b, c], r)
+    else if isDigit a && b == ':' then some ([a, b], c :: r)
     else none
-  | a :: ':' :: r => if isDigit a then some ([a, ':'], r) else none
+  | [a, b] => if isDigit a && b == ':' then some ([a, b], []) else none
   | _ => none
 
 /-- `(:\d{1,2})?` -/
 def optSeconds : List Char → List Char × List Char
-  | ':' :: r => match digits12 r with
-    | some (d, r') => (':' :: d, r')
-    | none => ([], ':' :: r)
-  | s => ([], s)
+  | [] => ([], [])
+  | c :: r =>
+    if c == ':' then
+      match digits12 r with
+      | some (d, r') => (c :: d, r')
+      | none => ([], c :: r)
+    else ([], c :: r)
 
 /-- `([.,]\d+)?` -/
 def optFraction : List Char → List Char × List Char
@@ -421,16 +426,20 @@ def take2digits : List Char → Option (List Char × List Char)
 /-- `_RE_YMD` at the current position: groups year, month (name or number), day -/
 def reYMD (s : List Char) : Option Match :=
   match take4digits s with
-  | some (y, '-' :: r) =>
-    let name := r.takeWhile isAlpha
-    let mo : Option (List Char × List Char) :=
-      if name.length ≥ 3 then some (name, r.dropWhile isAlpha) else take2digits r
-    match mo with
-    | some (mo, '-' :: r) =>
-      match take2digits r with
-      | some (d, _) => some ⟨4 + 1 + mo.length + 1 + 2, [y, mo, d]⟩
-      | none => none
-    | _ => none
+  | some (y, c :: r) =>
+    if c == '-' then
+      let name := r.takeWhile isAlpha
+      let mo : Option (List Char × List Char) :=
+        if name.length ≥ 3 then some (name, r.dropWhile isAlpha) else take2digits r
+      match mo with
+      | some (mo, c' :: r) =>
+        if c' == '-' then
+          match take2digits r with
+          | some (d, _) => some ⟨4 + 1 + mo.length + 1 + 2, [y, mo, d]⟩
+          | none => none
+        else none
+      | _ => none
+    else none
   | _ => none
 
 /-- `_RE_YEAR` -/
